@@ -578,7 +578,7 @@ def completely_flatten(array):
     elif isinstance(array, recordtypes):
         out = []
         for i in range(array.numfields):
-            out.extend(completely_flatten(array.field(i)))
+            out.extend(completely_flatten(array.field(i)[: len(array)]))
         return tuple(out)
 
     elif isinstance(array, ak.layout.NumpyArray):
